@@ -72,7 +72,8 @@ pub mod lab {
     pub const MAKEMUT_STORED: u32 = 55;
     pub const ALLOC_FAILURE_SURVIVED: u32 = 56;
     pub const ADDRESS_REUSED: u32 = 57;
-    pub const NAMES: [&str; 58] = [
+    pub const WEAK_BEFORE_ASSUME_INIT: u32 = 58;
+    pub const NAMES: [&str; 59] = [
         "group>=2_collected",
         "group>=3_collected",
         "zero_count_death_with_records",
@@ -131,6 +132,7 @@ pub mod lab {
         "make_mut_on_a_stored_handle",
         "injected_allocation_failure_handled_without_abort",
         "object_allocated_at_the_address_of_a_released_object",
+        "weak_taken_before_assume_init",
     ];
 }
 
